@@ -26,6 +26,7 @@ type c11Case struct {
 	Wire bool          `json:"after_wire"`
 	Cfg  []int         `json:"cfg,omitempty"`
 	Slot int           `json:"slot,omitempty"`
+	Raw  string        `json:"raw_attributes_hex,omitempty"` // raw: the attribute octets of one AES-CBC transform as a foreign sender wrote them
 }
 
 // algInfo is what a decode function returned, reduced to observable facts.
@@ -199,6 +200,8 @@ func init() {
 						evalC11Decode(c, f, cs.T, cs.Wire)
 					}
 				}
+			case "raw":
+				c11Raw(c, engine.UnHex(cs.Raw))
 			case "advertised":
 				c11Advertised(c)
 			case "proposal-ike":
@@ -405,6 +408,34 @@ func runC11(c *engine.Ctx) {
 			}
 		}
 	}
+	// AES-CBC transforms as a foreign sender may write them: every sequence of up to three attributes over an
+	// alphabet of well-formed attributes (key length as TV and as TLV of several lengths incl. 0, foreign TV / TLV
+	// attributes with key-length-like values)
+	{
+		tvA := func(t, v uint16) []byte { return []byte{0x80 | byte(t>>8), byte(t), byte(v >> 8), byte(v)} }
+		tlvA := func(t uint16, v []byte) []byte {
+			return append([]byte{byte(t >> 8), byte(t), byte(len(v) >> 8), byte(len(v))}, v...)
+		}
+		alpha := [][]byte{tvA(14, 128), tvA(14, 192), tvA(14, 256), tvA(14, 64), tvA(14, 0), tvA(9, 256), tvA(15, 128), tvA(0, 192),
+			tlvA(14, nil), tlvA(14, []byte{0, 128}), tlvA(14, []byte{0xde, 0xad, 0xbe, 0xef}), tlvA(14, []byte{1, 0}), tlvA(9, []byte{0, 128}), tlvA(300, nil)}
+		var rec func(cur []byte, depth int)
+		rec = func(cur []byte, depth int) {
+			if depth > 0 {
+				c11Raw(c, cur)
+			}
+			if depth == 3 {
+				return
+			}
+			for _, a := range alpha {
+				rec(append(append([]byte(nil), cur...), a...), depth+1)
+			}
+		}
+		for _, a := range alpha {
+			if c.Mine() {
+				rec(append([]byte(nil), a...), 1)
+			}
+		}
+	}
 	// (d) unsupported transform in each slot
 	for slot := 1; slot <= 5; slot++ {
 		for _, t := range []ref.Transform{{ID: 3}, {ID: 12}, {ID: 12, HasAttr: true, TV: true, AType: 14, AValue: 64}, {ID: 12, HasAttr: true, TV: true, AType: 142, AValue: 128},
@@ -415,6 +446,63 @@ func runC11(c *engine.Ctx) {
 			}
 		}
 	}
+}
+
+// c11Raw: one AES-CBC transform with the given attribute octets, inside a one-proposal SA payload. If the payload
+// decodes and a decode function names an AES-CBC algorithm, the wire must carry a Key Length attribute in TV form
+// (type 14) with exactly that key size — whatever else it carries — and asking again gives the same answer.
+func c11Raw(c *engine.Ctx, attrs []byte) {
+	c.Evals++
+	cs := c11Case{K: "raw", Raw: engine.Hex(attrs)}
+	tl := 8 + len(attrs)
+	pl := 8 + tl
+	body := []byte{0, 0, byte(pl >> 8), byte(pl), 1, 1, 0, 1, 0, 0, byte(tl >> 8), byte(tl), 1, 0, 0, 12}
+	body = append(body, attrs...)
+	// which key sizes does the wire name with a well-formed TV attribute of type 14?
+	named := map[int]bool{}
+	for i := 0; i+4 <= len(attrs); {
+		t := int(attrs[i]&0x7f)<<8 | int(attrs[i+1])
+		if attrs[i]&0x80 != 0 {
+			if t == 14 {
+				named[int(attrs[i+2])<<8|int(attrs[i+3])] = true
+			}
+			i += 4
+		} else {
+			i += 4 + (int(attrs[i+2])<<8 | int(attrs[i+3]))
+		}
+	}
+	sa := &message.SecurityAssociation{}
+	var err error
+	if pi := engine.Catch(func() { err = sa.Unmarshal(body) }); pi != nil {
+		c.Violate(pi.Sig(), "SA Unmarshal panics on a transform with several attributes: "+pi.Value, cs)
+		return
+	}
+	if err != nil || len(sa.Proposals) != 1 || len(sa.Proposals[0].EncryptionAlgorithm) != 1 {
+		c.Count("raw_transforms_refused_or_dropped", 1)
+		return
+	}
+	lt := sa.Proposals[0].EncryptionAlgorithm[0]
+	for _, f := range decodeFns()[:2] {
+		var first algInfo
+		for k := 0; k < 8; k++ {
+			var got algInfo
+			if pi := engine.Catch(func() { got = f.f(lt) }); pi != nil {
+				c.Violate(pi.Sig(), f.name+" panics: "+pi.Value, cs)
+				return
+			}
+			if k == 0 {
+				first = got
+			} else if got != first {
+				c.Violate("raw/not-deterministic/"+f.name, fmt.Sprintf("%s gives %+v and then %+v for the same transform (attributes %x)", f.name, first, got, attrs), cs)
+				return
+			}
+		}
+		if first.ok && (first.id != ref.EncrAESCBC || !named[first.keyLen*8]) {
+			c.Violate("raw/unsupported-accepted/"+f.name, fmt.Sprintf("%s maps an AES-CBC transform with attributes %x to key length %d although the wire carries no TV Key Length attribute with that value", f.name, attrs, first.keyLen), cs)
+			return
+		}
+	}
+	c.DistinctS("raw" + cs.Raw)
 }
 
 func c11Advertised(c *engine.Ctx) {
